@@ -35,6 +35,7 @@ def seed_docs(hs, A, tier, rng):
         [{'a': pytz.utc.localize(datetime.datetime(2020, 1, 2, 3, 4, 5)), 'b': hs.Coordinate(1.5, -2.25)}])
     add('xstr_bin', '3.0', [('a', []), ('b', [])], [{'a': hs.XStr('hex', 'ff'), 'b': hs.Bin('t/p')}])
     add('qty_bool', '2.0', [('a', []), ('b', []), ('c', [])], [{'a': hs.Quantity(2, 'kW'), 'b': True, 'c': hs.REMOVE}])
+    add('v200_null', '2.0.0', [('a', []), ('b', [])], [{'a': None, 'b': 'x'}])      # 2.0 spelled with extra zero groups
     if tier != 'quick':
         add('date_time', '2.0', [('a', []), ('b', [])], [{'a': datetime.date(2020, 2, 29), 'b': datetime.time(1, 2, 3, 500000)}])
         add('two_rows', '2.0', [('a', []), ('b', [])], [{'a': 1, 'b': 'x'}, {'a': None, 'b': hs.MARKER}])
@@ -70,12 +71,15 @@ def _init():
 
 
 def _outcome(args):
-    cid, text = args
+    cid, text = args[0], args[1]
+    single = len(args) > 2 and args[2]
     hs, A, ZPE = _W['hs'], _W['A'], _W['ZPE']
     s = ''.join(chr(c) for c in text)
     signal.setitimer(signal.ITIMER_REAL, 5.0)
     try:
-        res = hs.parse(s, mode=hs.MODE_ZINC, single=False)
+        res = hs.parse(s, mode=hs.MODE_ZINC, single=single)
+        if single:
+            res = [] if res is None else [res]
         signal.setitimer(signal.ITIMER_REAL, 0)
         try:
             return cid, {'out': 'grid', 'abs': A.doc(res)}
@@ -158,8 +162,15 @@ def run(tier):
             cid = len(cases) + 1
             cases.append({'id': cid, 'k': 'outcome', 'strict': False, 'text': [ord(c) for c in s]})
             info[cid] = {'seed': 'random', 'style': 0, 'mutation': 'random', 'at': 0}
+        for c in list(cases):
+            c['single'] = False
+            t = c['text']
+            if any(t[i] == 10 and t[i + 1] == 10 for i in range(len(t) - 1)):
+                cid = len(cases) + 1
+                cases.append({'id': cid, 'k': 'outcome', 'strict': False, 'text': t, 'single': True})
+                info[cid] = dict(info[c['id']], single=True)
         with multiprocessing.get_context('fork').Pool(NCPU, initializer=_init) as pool:
-            outs = dict(pool.map(_outcome, [(c['id'], c['text']) for c in cases], chunksize=40))
+            outs = dict(pool.map(_outcome, [(c['id'], c['text'], c['single']) for c in cases], chunksize=40))
             # scalar tokens
             scal = []
             for _ in range(1500 if tier == 'quick' else 15000):
@@ -173,7 +184,7 @@ def run(tier):
             c['line'] = o.get('line', 0); c['col'] = o.get('col', 0); c['gtext'] = o.get('gtext', [])
         base = len(cases)
         for sid, text, ver in scal:
-            cases.append({'id': base + sid, 'k': 'scalar', 'strict': False, 'text': text, 'out': souts[sid]['out']})
+            cases.append({'id': base + sid, 'k': 'scalar', 'strict': False, 'text': text, 'out': souts[sid]['out'], 'single': False})
             info[base + sid] = {'seed': 'scalar', 'style': 0, 'mutation': 'random_token', 'at': 0, 'ver': ver}
         verdicts = zinccodec.judge_cases(rep, work, cases, 'c09')
         rep.traces += len(cases)
@@ -188,7 +199,7 @@ def run(tier):
                 text = ''.join(chr(x) for x in c['text'])
                 o = outs.get(c['id']) if c['k'] == 'outcome' else souts.get(c['id'] - base)
                 rep.violation({'engine': 'zincmut', 'clause': clause, 'mutation': m['mutation'], 'seed': m['seed'],
-                               'hszinc': c['out']},
+                               'hszinc': c['out'], 'single': bool(c.get('single'))},
                               {'text': text, 'clause': clause, 'machine_position': pos, 'hszinc_outcome': c['out'],
                                'exception': (o or {}).get('exc'), 'line': c.get('line'), 'col': c.get('col'), 'info': m})
         rep.extra['verdict_counts'] = counts
@@ -203,7 +214,7 @@ def run(tier):
                and c['text'][:4] != [118, 101, 114, 58]]
         if okz:
             c0 = json.loads(json.dumps(okz[0])); c0['id'] = 1
-            c1 = json.loads(json.dumps(okz[0])); c1['id'] = 2; c1['out'] = 'grid'; c1['abs'] = []
+            c1 = json.loads(json.dumps(okz[0])); c1['id'] = 2; c1['out'] = 'grid'; c1['abs'] = []; c1['single'] = False
             v2 = zinccodec.judge_cases(rep, work, [c0, c1], 'c09self', shards=1)
             ok = v2[1][0] == 'OK' and v2[2][0] == 'REJECT'
             rep.extra['binding_selftest'] = {'ok': ok, 'verdicts': [list(v2[1]), list(v2[2])]}
@@ -227,10 +238,10 @@ def replay(path):
     text = [ord(x) for x in c['text']]
     if c['info']['seed'] == 'scalar':
         _, o = _scalar_outcome((1, text, c['info'].get('ver', '3.0')))
-        case = {'id': 1, 'k': 'scalar', 'strict': False, 'text': text, 'out': o['out']}
+        case = {'id': 1, 'k': 'scalar', 'strict': False, 'text': text, 'out': o['out'], 'single': False}
     else:
-        _, o = _outcome((1, text))
-        case = {'id': 1, 'k': 'outcome', 'strict': False, 'text': text, 'out': o['out'], 'abs': o.get('abs', []),
+        _, o = _outcome((1, text, bool(c['info'].get('single'))))
+        case = {'id': 1, 'k': 'outcome', 'strict': False, 'text': text, 'single': bool(c['info'].get('single')), 'out': o['out'], 'abs': o.get('abs', []),
                 'line': o.get('line', 0), 'col': o.get('col', 0), 'gtext': o.get('gtext', [])}
     print('text:', repr(c['text']))
     print('hszinc outcome:', {k: v for k, v in o.items() if k not in ('abs', 'gtext')})
